@@ -287,6 +287,9 @@ class Routing:
                     elif depth < 2 and c not in rewired and (
                             k == 'flow' or (k == 'gate' and self.pred.get(c, {}).get('t') == 'always')):
                         if self.blocked.get(c) or getattr(d, 'block_input', False):
+                            if depth > 0:
+                                # closed, but the pass-through above it still ranks by what waits behind it
+                                unresolved = True
                             continue            # closed: nothing behind it can take the part
                         through = True
                         collect(d, depth + 1)
